@@ -201,6 +201,28 @@ func build(work string, harness string) string {
 	return bin
 }
 
+// buildGenerator builds the tree's interface generator (with the request-server file added by the overlay)
+// and lists the compiler export data of package varlink and its dependencies, for the checks that
+// type-check and build generated code (C07, C08). Returns the environment entries the harness needs.
+func buildGenerator(work string) []string {
+	ov := filepath.Join(work, "instr", "overlay.json")
+	hg := filepath.Join(work, "hg")
+	if out, err := run(filepath.Join(verif, "vx"), "go", "build", "-overlay", ov, "-o", hg, "github.com/varlink/go/cmd/varlink-go-interface-generator"); err != nil {
+		fmt.Fprint(os.Stderr, out)
+		infra("building the interface generator from /repo's working tree failed: %v", err)
+	}
+	out, err := run(filepath.Join(verif, "vx"), "go", "list", "-export", "-deps", "-overlay", ov, "-f", "{{if .Export}}{{.ImportPath}}={{.Export}}{{end}}", "github.com/varlink/go/varlink")
+	if err != nil {
+		fmt.Fprint(os.Stderr, out)
+		infra("go list -export of package varlink failed: %v", err)
+	}
+	exp := filepath.Join(work, "exports.txt")
+	if err := os.WriteFile(exp, []byte(out), 0o644); err != nil {
+		infra("%v", err)
+	}
+	return []string{"VX_HG=" + hg, "VX_EXPORTS=" + exp, "VX_OVERLAY=" + ov}
+}
+
 func check(id, tier string) int {
 	cfg, ok := propsCfg[id]
 	if !ok {
@@ -218,6 +240,10 @@ func check(id, tier string) int {
 	}
 	defer os.RemoveAll(work)
 	bin := build(work, cfg.harness)
+	var extraEnv []string
+	if id == "C07" || id == "C08" {
+		extraEnv = buildGenerator(work)
+	}
 	shards := cfg.shards
 	if n := runtime.NumCPU(); n < shards {
 		shards = n
@@ -242,7 +268,7 @@ func check(id, tier string) int {
 			// the order in which shards take scenarios is permuted by the seed; the set explored is not
 			cmd := exec.Command(bin, "-tier", tier, "-shard", strconv.Itoa((i+seed)%shards), "-shards", strconv.Itoa(shards),
 				"-out", outf, "-queue", filepath.Join(work, "queue"), "-budget", budget.String(), "-replaydir", filepath.Join(verif, "replays"), id)
-			cmd.Env = append(goEnv(), "GOMAXPROCS=2")
+			cmd.Env = append(append(goEnv(), "GOMAXPROCS=2"), extraEnv...)
 			cmd.Dir = work
 			out, err := cmd.CombinedOutput()
 			if err != nil {
@@ -473,9 +499,14 @@ func replay(path string) int {
 	}
 	defer os.RemoveAll(work)
 	bin := build(work, cfg.harness)
+	var extraEnv []string
+	if r.Property == "C07" || r.Property == "C08" {
+		extraEnv = buildGenerator(work)
+	}
 	for _, tier := range []string{"quick", "thorough"} {
 		cmd := exec.Command(bin, "-tier", tier, "-replay", path, r.Property)
-		cmd.Env = goEnv()
+		cmd.Env = append(goEnv(), extraEnv...)
+		cmd.Dir = work
 		out, err := cmd.CombinedOutput()
 		if ee, ok := err.(*exec.ExitError); ok && ee.ExitCode() == 2 && tier == "quick" {
 			continue // scenario belongs to the other tier
